@@ -403,6 +403,28 @@ func runC13(r *Run) {
 			}
 		}
 	}
+	// operands selected through a subscript list / range followed by a step that the *last* selected
+	// element does not support (the operand still has exactly one numeric item)
+	var sps []*Expr
+	for _, ix := range []*Expr{sIndex(subR(eInt(0), eInt(1))), sIndex(sub1(eInt(0)), sub1(eInt(1))), sIndex(subR(eInt(0), eLast())), sIndex(sub1(eInt(1)), sub1(eInt(0)))} {
+		o := eRoot(ix, sKey("a"))
+		sps = append(sps, eNeg(o), ePos(o), eExists(eNeg(o)), eRoot(sFilter(eExists(ePos(eCur(ix, sKey("a")))))))
+		for _, op := range ops {
+			sps = append(sps, eArith(op, o, eInt(2)), eArith(op, eInt(2), o), eExists(eArith(op, o, eInt(2))))
+		}
+	}
+	sdocs := makeDocs([]any{mustDoc(`[{"a":5},{"b":1}]`, "float64"), mustDoc(`[{"b":1},{"a":5}]`, "float64"), mustDoc(`[{"a":5},1]`, "float64"), mustDoc(`[{"a":5},{"a":"x"}]`, "float64"), mustDoc(`[{"a":5},{"a":7}]`, "float64")})
+	r.Bound("subscripted_operand_paths", 2*len(sps))
+	refSweep(r, "subscripted-operands", bothModes(sps), sdocs, []sweepCfg{{Num: "float64"}, {Num: "number"}})
+	for _, p := range bothModes(sps) {
+		for _, d := range sdocs {
+			c := Case{Rule: "exists-agrees", Path: p.String(), Doc: d.text, Num: "float64"}
+			r.evals.Add(1)
+			if f := c13ExistsAgrees(c); f != nil {
+				r.Fail(c, f)
+			}
+		}
+	}
 	r.Bound("literal_chain_operand_paths", 2*len(lps))
 	refSweep(r, "literal-chain-operands", bothModes(lps), makeDocs([]any{nil}), []sweepCfg{{Num: "float64"}})
 	// operand sequences: 0 / 2 elements / non-numeric => suppressible error; lax unwrapping of arrays
@@ -420,6 +442,20 @@ func runC13(r *Run) {
 			}
 		}
 	}
+}
+
+// c13ExistsAgrees: an operation that delivers an item exists; one that fails or delivers nothing does not.
+func c13ExistsAgrees(c Case) *Failure {
+	p, err, pan := parseCached(c.Path)
+	if err != nil || pan != "" {
+		return &Failure{Sig: "C13/parse", Expected: "parses", Observed: fmt.Sprint(c.Path, err, pan)}
+	}
+	doc := mustDoc(c.Doc, c.Num)
+	q, e := implQuery(p, doc, runCfg{}), implExists(p, doc, runCfg{})
+	if q.Class == "ok" && (e.Class != "ok" || e.Bool != (len(q.Items) > 0)) {
+		return &Failure{Sig: "C13/exists-differs-from-query", Expected: fmt.Sprint(len(q.Items) > 0, " (Query: ", q.String(), ")"), Observed: e.String()}
+	}
+	return nil
 }
 
 func c13Seq(c Case) *Failure {
